@@ -449,6 +449,8 @@ func runC19(r *hk.Run) {
 	runHandshakeOrder(r, e, rng, r.Scale(40, 1000))
 	runReExec(r, e, rng, r.Scale(100, 2000))
 	runLive(r, e, rng, r.Scale(60, 1500))
+	runProxyRotation(r, e, rng, r.Scale(40, 1000))
+	runRequestDump(r, e, rng, r.Scale(40, 1000))
 	n := r.Scale(320, 8000)
 	for i := 0; i < n; i++ {
 		ln := 25
